@@ -20,7 +20,7 @@ def pathOf (k : Bytes) : Path := (keyPath k).getD []
 
 /-- `delete_objects` comparable: admissible bucket; when it exists the keys are distinct [else
     fs:delete-objects-duplicate-key], canonical, and each names a file [else fs:delete-objects-omits-missing-keys]. A bucket
-    that does not exist is inside since 902249e, with any keys (`NoSuchBucket` on both sides, `InvalidArgument` when a key
+    that does not exist is inside since 0f31b61, with any keys (`NoSuchBucket` on both sides, `InvalidArgument` when a key
     is refused; before: fs:delete-objects-in-missing-bucket) -/
 def DeleteObjectsOk (s : State) (b : Bytes) (keys : List Bytes) : Prop :=
   bucketOk b = true ∧
